@@ -1,0 +1,96 @@
+//go:build verif
+
+package libp2p
+
+import (
+	"context"
+
+	pubsub "github.com/libp2p/go-libp2p-pubsub"
+	pubsubpb "github.com/libp2p/go-libp2p-pubsub/pb"
+
+	"github.com/keep-network/keep-core/pkg/net"
+	"github.com/keep-network/keep-core/pkg/net/retransmission"
+	"github.com/keep-network/keep-core/pkg/operator"
+)
+
+// Verification hook (build tag verif): wrappers around existing unexported
+// identifiers only.
+
+type verifC16Publisher func(data []byte) error
+
+func (p verifC16Publisher) Publish(
+	_ context.Context,
+	data []byte,
+	_ ...pubsub.PubOpt,
+) error {
+	return p(data)
+}
+
+// VerifC16NewChannel builds a channel value as channelManager.newChannel does,
+// with a caller-provided publisher and retransmission ticker and no pubsub
+// subscription behind it.
+func VerifC16NewChannel(
+	name string,
+	operatorPrivateKey *operator.PrivateKey,
+	ticker *retransmission.Ticker,
+	publish func(data []byte) error,
+) (net.BroadcastChannel, error) {
+	networkPrivateKey, _, err := operatorPrivateKeyToNetworkKeyPair(operatorPrivateKey)
+	if err != nil {
+		return nil, err
+	}
+	identity, err := createIdentity(networkPrivateKey)
+	if err != nil {
+		return nil, err
+	}
+	return &channel{
+		name:                 name,
+		clientIdentity:       identity,
+		publisher:            verifC16Publisher(publish),
+		incomingMessageQueue: make(chan *pubsub.Message, incomingMessageThrottle),
+		messageHandlers:      make([]*messageHandler, 0),
+		unmarshalersByType:   make(map[string]func() net.TaggedUnmarshaler),
+		retransmissionTicker: ticker,
+	}, nil
+}
+
+// VerifC16Inject hands pubsub data published by `from` to
+// processPubsubMessage of `to`.
+func VerifC16Inject(from, to net.BroadcastChannel, data []byte) error {
+	author := []byte(from.(*channel).clientIdentity.id)
+	return to.(*channel).processPubsubMessage(
+		&pubsub.Message{Message: &pubsubpb.Message{From: author, Data: data}},
+	)
+}
+
+// VerifC16HandlerCount returns the number of registered message handlers.
+func VerifC16HandlerCount(ch net.BroadcastChannel) int {
+	c := ch.(*channel)
+	c.messageHandlersMutex.Lock()
+	defer c.messageHandlersMutex.Unlock()
+	return len(c.messageHandlers)
+}
+
+// VerifC16Tap registers a raw message handler (no retransmission filter, no
+// handler loop) and returns its channel: everything passed to deliver.
+func VerifC16Tap(ch net.BroadcastChannel, size int) <-chan net.Message {
+	c := ch.(*channel)
+	tap := make(chan net.Message, size)
+	c.messageHandlersMutex.Lock()
+	defer c.messageHandlersMutex.Unlock()
+	c.messageHandlers = append(
+		c.messageHandlers,
+		&messageHandler{ctx: context.Background(), channel: tap},
+	)
+	return tap
+}
+
+// VerifC16NextSeqno calls nextSeqno.
+func VerifC16NextSeqno(ch net.BroadcastChannel) uint64 {
+	return ch.(*channel).nextSeqno()
+}
+
+// VerifC16SenderID returns the transport identifier messages of the channel carry.
+func VerifC16SenderID(ch net.BroadcastChannel) string {
+	return ch.(*channel).clientIdentity.id.String()
+}
